@@ -459,6 +459,38 @@ var hostile = []string{"", "v", "a=b", "http://h/?a=1&b=2", "x==y=", " spaced va
 var envKeys = []string{"A", "AB", "A_B", "a", "B", "URL", "URL_2", "PATH", "PATH_X", "opt_1"}
 var strVals = []string{"alpha", "beta gamma", "/abs/dir", "rel/dir", "sub", "echo 'q'", "x=y", "z#1"}
 
+// genRestated: a later file repeats an earlier definition of the process verbatim (generated
+// files often do) and changes only one or two options.
+func genRestated(t *rapid.T, prev PFrag) PFrag {
+	p := PFrag{Name: prev.Name, Scalars: map[string]string{}, Env: append([]string(nil), prev.Env...)}
+	for k, v := range prev.Scalars {
+		p.Scalars[k] = v
+	}
+	if prev.Deps != nil {
+		p.Deps = map[string]string{}
+		for k, v := range prev.Deps {
+			p.Deps[k] = v
+		}
+	}
+	for i, n := 0, pbt.Range(t, 1, 2); i < n; i++ {
+		o := pbt.Pick(t, opts)
+		switch o.kind {
+		case "s":
+			if o.path == "working_dir" || o.path == "namespace" {
+				continue
+			}
+			p.Scalars[o.path] = pbt.Pick(t, strVals) + "-r"
+		case "i":
+			p.Scalars[o.path] = strconv.Itoa(pbt.Range(t, 31, 60))
+		case "b":
+			p.Scalars[o.path] = "true"
+		case "e":
+			p.Scalars[o.path] = pbt.Pick(t, []string{"always", "on_failure", "no", "exit_on_failure"})
+		}
+	}
+	return p
+}
+
 func genFrag(t *rapid.T, name string, earlier []string, later bool) PFrag {
 	p := PFrag{Name: name, Scalars: map[string]string{}}
 	for _, o := range opts {
@@ -509,6 +541,7 @@ func genMerge(t *rapid.T) MergeCase {
 	nf := pbt.Range(t, 2, 4)
 	universe := []string{"p0", "p1", "p2", "p3", "p10"}
 	defined := map[string]bool{}
+	lastFrag := map[string]PFrag{}
 	var c MergeCase
 	for i := 0; i < nf; i++ {
 		f := FileFrag{Dir: pbt.Pick(t, []string{".", "a", "a/b", "c"})}
@@ -535,7 +568,12 @@ func genMerge(t *rapid.T) MergeCase {
 					earlier = append(earlier, e)
 				}
 			}
-			f.Procs = append(f.Procs, genFrag(t, name, earlier, i > 0))
+			if prev, ok := lastFrag[name]; ok && pbt.Pct(t, 30) {
+				f.Procs = append(f.Procs, genRestated(t, prev))
+			} else {
+				f.Procs = append(f.Procs, genFrag(t, name, earlier, i > 0))
+			}
+			lastFrag[name] = f.Procs[len(f.Procs)-1]
 			defined[name] = true
 		}
 		if len(f.Procs) == 0 {
